@@ -115,18 +115,24 @@ def Dur.Valid (d : Dur) : Prop :=
 def durBuild (d : Dur) : Int × Int :=
   if d.nanos < 0 then (wrapI64 (d.secs - 1), d.nanos + nanosPerSec) else (d.secs, d.nanos)
 
-/-- `time::Duration::new(seconds, nanoseconds)` (time 0.3): panics on overflow of the carry. -/
-def durNew (seconds nanos : Int) : Outcome Dur :=
+/-- `duration_from_parts(seconds, nanos)` of std_conv.rs (the repaired F3):
+`time::Duration::seconds(seconds).checked_add(time::Duration::nanoseconds(nanos.into()))` with time 0.3 semantics —
+`Duration::nanoseconds(n) = (n / 10⁹, n % 10⁹)` (truncating), `checked_add` adds the parts, re-normalises the signs and
+returns `None` (here: `err`, "duration overflow") when the seconds leave `i64`. -/
+def durFromParts (seconds nanos : Int) : Outcome Dur :=
   let s := seconds + Int.tdiv nanos nanosPerSec
-  if s < i64Min ∨ i64Max < s then .panic "overflow constructing `time::Duration`"
+  if s < i64Min ∨ i64Max < s then .err
   else
-    let n := Int.tmod nanos nanosPerSec
-    if 0 < s ∧ n < 0 then .ok ⟨s - 1, n + nanosPerSec⟩
-    else if s < 0 ∧ 0 < n then .ok ⟨s + 1, n - nanosPerSec⟩
+    let n := 0 + Int.tmod nanos nanosPerSec
+    if nanosPerSec ≤ n ∨ (s < 0 ∧ 0 < n) then
+      (if i64Max < s + 1 then .err else .ok ⟨s + 1, n - nanosPerSec⟩)
+    else if n ≤ -nanosPerSec ∨ (0 < s ∧ n < 0) then
+      (if s - 1 < i64Min then .err else .ok ⟨s - 1, n + nanosPerSec⟩)
     else .ok ⟨s, n⟩
 
-/-- `impl ProtoFmt for time::Duration :: read` on present fields. -/
-def durRead (seconds nanos : Int) : Outcome Dur := durNew seconds nanos
+/-- `impl ProtoFmt for time::Duration :: read` on present fields (`time::Utc` adds the result to `UNIX_EPOCH`,
+which is the zero duration). -/
+def durRead (seconds nanos : Int) : Outcome Dur := durFromParts seconds nanos
 
 def durTree (d : Dur) : Tree :=
   let (s, n) := durBuild d
